@@ -222,7 +222,20 @@ def r04_3(ctx, S, prog, crate):
                 c = ds[0]
                 a0 = b.prov.op_src(c.args[0])
                 a1 = b.prov.op_src(c.args[1])
-                ctx.check(any(z.kind == "call" and z.a == "std::iter::Iterator::max" for z in a0) and nophi(a0) and not any(z.kind == "call" and z.a.endswith(("::min", "::last", "::first")) for z in a0),
+                via_max = any(z.kind == "call" and z.a == "std::iter::Iterator::max" for z in a0)
+                # idiom 2: `iter().max_by_key(|s| s.end).unwrap().end` - the `end` field of the sample with the greatest `end`
+                via_key = False
+                if not via_max:
+                    from lib.symexpr import Sym
+                    e = Sym(b, site_args=True).op(c.args[0])
+                    if e[0] == "field" and e[2] == ("end",) and e[1][0] == "site" and e[1][1].endswith("::unwrap") and e[1][3] and e[1][3][0][0] == "site" \
+                            and e[1][3][0][1] == "std::iter::Iterator::max_by_key":
+                        kc = b.call_at(e[1][3][0][2])
+                        for o in origins(b, kc.args[1]):
+                            if o[0] == "rvalue" and o[1]["k"] == "agg" and o[1]["ak"] == "closure":
+                                cb = prog.bodies.get((b.crate, norm(o[1]["def"]), -1))
+                                via_key = cb is not None and {z.label() for z in cb.prov.local_src(0)} == {"param:" + cb.param_name(2) + ".end"}
+                ctx.check((via_max or via_key) and nophi(a0) and not any(z.kind == "call" and z.a.endswith(("::min", "::last", "::first")) for z in a0),
                           "R04.3", [b.path, "latest-end"], "elapsed is not measured up to the maximum end timestamp (%s)" % sorted(z.a for z in a0 if z.kind == "call"), c.line())
                 ctx.check(any(z.kind == "call" and z.b == st.bb for z in a1), "R04.3", [b.path, "since-initial_start"], "elapsed is not measured from initial_start", c.line())
                 # the mapping closure projects `.end`
